@@ -2,6 +2,9 @@
 # tools/seedrun.sh <seed dir name, e.g. C19a> <check ids...> : run checks against an already confirmed seed (scratch worktree, /repo untouched)
 S=$1; shift
 P=${S:0:3}; WT=/tmp/wt_$P; OUT=/verif/seeded/$S
+# the scratch worktree is created on demand at /repo's HEAD and can be removed afterwards with
+#   git -C /repo worktree remove --force /tmp/wt_<PROP>
+[ -d $WT ] || git -C /repo worktree add -q --detach $WT HEAD || exit 2
 git -C $WT checkout -q -- linear_operator test; git -C $WT apply $OUT/patch.diff || exit 2
 for C in "$@"; do
   ( cd /verif && VERIF_REPO=$WT VERIF_OUT=$OUT/out ./vcheck $C --tier ${TIER:-quick} ${ONLY:+--only "$ONLY"} > $OUT/vcheck_$C.log 2>&1 ); rc=$?
